@@ -1,6 +1,6 @@
 ENTRY = {
     "level": "proof",
-    "families": [fam("C11", 1500, 40000)],
+    "families": [fam("C11", 500, 40000)],
     "gen_items": ["target_split_bytes", "MIN_SPLIT_BYTES", "MAX_SPLIT_BYTES", "SPLITS_PER_NODE",
                   "cut_pieces", "cut_base", "cut_remainder", "cut_piece_rows", "cut_piece_bytes"],
     "rule": "cases: 80% table layouts written as REAL Parquet files under $IQE_SCRATCH (0..6 files; 0..7 row groups per file with 0,1,2,..3000 rows incl. EMPTY row groups; "
@@ -22,8 +22,8 @@ ENTRY = {
         "u64 overflow of total_bytes / i64 of total_rows while summing footers is not modelled (needs > 2^63 bytes of footers)",
         "node counts >= 2^59 (32*nodes overflows u64) are outside the property's 1..64 and not generated",
     ],
-    "min_tags": {"enum": 500, "target": 100, "cut": 200, "zero-row-group": 50, "multi-file": 200, "multi-row-group": 200, "dup-names": 30, "bad-footer": 20,
-                 "no-files": 10, "nodes0": 20, "target-ideal": 10, "target-floor": 30, "target-max": 10},
+    "min_tags": {"enum": 300, "target": 60, "cut": 100, "zero-row-group": 30, "multi-file": 100, "multi-row-group": 100, "dup-names": 15, "bad-footer": 10,
+                 "no-files": 5, "nodes0": 10, "target-ideal": 5, "target-floor": 15, "target-max": 5},
     "manifest": {
         "category": "proof",
         "text": "Lean theorems over the executable model of enumerate_parquet, for every row-group inventory, byte size, target and node count (induction over the cutting loop): each non-empty row group "
@@ -34,7 +34,7 @@ ENTRY = {
                 "The unchanged tree VIOLATES order-independence for duplicate file names (kernel-checked witness, known finding C11-F1, reproduced on real files every run).",
         "design_ref": "DESIGN.md §6 C11",
         "level_note": "Trusted: Lean kernel; axioms propext/Classical.choice/Quot.sound; translator (Rust expr -> Lean); hand model of the loops (validated by correspondence on real Parquet files); parquet crate; harness generators. "
-                      "Partial: digest sensitivity (see text). Known finding C11-F1 open (proposed fix: refuse duplicate file names).",
+                      "Partial: digest sensitivity (see text). Known finding C11-F1 open (a 'refuse duplicate file names' patch was declined: it would remove working behaviour for Iceberg-style layouts).",
         "technique": "Lean 4 proof over executable model + translator-regenerated arithmetic + differential correspondence with the Rust code on real Parquet files",
     },
 }
